@@ -93,15 +93,16 @@ class C05(Prop):
     cases = {"quick": 1500, "thorough": 20000}
     rule = ("synthetic imzML/ibd pairs: images 1x1..4x4, random subsets of pixels (also none), per-pixel or shared m/z axes of "
             "1..8 strictly increasing dyadic values, f32/f64 arrays, TIC stored/absent, image size present/absent; 1..5 target "
-            "masses with ppm or absolute widths whose edges are exactly representable, spectra drawn from a grid plus the window "
-            "edges themselves (peaks exactly on the lower/upper edge); windows empty / below / above / touching first or last "
+            "masses with ppm or absolute widths whose edges are exactly representable, spectra drawn from a grid plus (absolute widths) "
+            "the window edges themselves (peaks exactly on the lower/upper edge; with ppm widths a peak within 1e-9 of an edge is "
+            "undetermined); windows empty / below / above / touching first or last "
             "peak / many peaks / overlapping / unsorted; a 'real' stream with non-dyadic values and a summation tolerance; "
             "bins with dyadic widths incl. spectra with a peak in every bin. non-trivial = at least one of the named window "
             "classes or a sparse/size-absent image; distinct by canonical case hash")
     trusted = ["np.searchsorted on a sorted array returns #{p | a[p] < v}; np.add.reduceat, np.append, np.frombuffer, np.arange as documented",
                "exact stream: m/z k/2^14 < 256 and integer intensities < 2^11 so float32/float64 sums and the float window edges "
-               "(m*ppm/1e6/2 with ppm = 1e6/2^j) are exact; real stream: sums compared with tolerance 8*n*eps*total and cases with a peak "
-               "within 1e-9 relative of a window edge are undetermined",
+               "of absolute widths are exact; ppm widths and the real stream: cases with a peak within 1e-9 relative of a window edge are "
+               "undetermined; real stream: sums compared with tolerance 8*n*eps*total",
                "xml.etree.ElementTree parses the synthetic document as written; float(text) of the stored TIC"]
     assumptions = ["positions are 1-based and inside the stated image size; spectra are non-empty with strictly increasing m/z",
                    "mass_range is checked as a bound (low <= every m/z <= high); bin edges returned by binned_masses are accepted when they "
@@ -166,7 +167,7 @@ class C05(Prop):
                 vals = set()
                 while len(vals) < n:
                     r = rng.random()
-                    if r < 0.45 and edges:
+                    if r < 0.45 and edges and width["kind"] == "mz":
                         e = rng.choice(edges)
                         if 0 < e < 256:
                             vals.add(float(e))
@@ -334,9 +335,10 @@ class C05(Prop):
                 parts_model["binned"] = "data" in ib and ib["bins"] == model["binned"]["bins"] \
                     and self.binned_matches_model(ib["data"], model["binned"]["data"], spec["binned"]["data"], brep["dense"], tol)
 
-        # undetermined: real stream with a peak within 1e-9 relative of a window edge
+        # undetermined: a peak within 1e-9 relative of a window edge whose float value depends on how the code
+        # rounds (real stream; every ppm width: m*ppm/1e6/2 and e.g. m*(ppm*5e-7) are both right but round differently)
         undet = False
-        if case["kind"] == "real":
+        if case["kind"] == "real" or width["kind"] == "ppm":
             edges = [core.unrat(e) for e in rep["edges"]]
             for s in dspecs:
                 for m in s["mz"]:
